@@ -48,7 +48,7 @@ func (p c08) Run(runseed uint64, tier string, acc *Acc) []*core.Violation {
 	}
 	fo.LargePct = 1
 	fo.GiantPct = 5
-	fo.MillionPer100k = 200
+	fo.MillionPer100k = 500
 	if tier == "thorough" {
 		fo.LargePct = 2
 	}
